@@ -14,13 +14,21 @@ import sys
 SERVER_CODE = r'''
 import importlib, json, os, sys, types, inspect, traceback
 
+# Dunder names the interpreter binds in a module by itself; every other name (dunder-shaped or not) was bound by a statement
+# of the module or by an import side effect and is reported.
+INTERPRETER_DUNDERS = frozenset(["__name__", "__doc__", "__package__", "__loader__", "__spec__", "__path__", "__file__",
+                                 "__cached__", "__builtins__", "__annotations__", "__annotate__",
+                                 "__conditional_annotations__", "__warningregistry__", "__firstlineno__",
+                                 "__static_attributes__"])
+
 def ident(v):
     if isinstance(v, types.ModuleType):
         return {"k": "module", "id": v.__name__}
     if isinstance(v, type):
-        return {"k": "class", "id": v.__module__ + "." + v.__qualname__}
+        return {"k": "class", "id": (getattr(v, "__module__", None) or "?") + "." + v.__qualname__}
     if isinstance(v, (types.FunctionType, types.BuiltinFunctionType)):
-        return {"k": "function", "id": getattr(v, "__module__", "?") + "." + v.__qualname__}
+        # bound builtin methods (e.g. `module.__dir__` inherited from the module type) have __module__ None
+        return {"k": "function", "id": (getattr(v, "__module__", None) or "?") + "." + v.__qualname__}
     if isinstance(v, str):
         return {"k": "value", "id": v}
     return {"k": "other", "id": repr(v)[:80]}
@@ -56,7 +64,7 @@ def import_package(req):
                 continue
             d = {}
             for k, v in vars(m).items():
-                if k.startswith("__") and k.endswith("__") and k != "__all__":
+                if k in INTERPRETER_DUNDERS:
                     continue
                 d[k] = ident(v)
             out["modules"][n] = {"names": d, "all": list(getattr(m, "__all__", None)) if hasattr(m, "__all__") else None,
